@@ -74,9 +74,19 @@ type universe struct {
 var authVersionOID = asn1.ObjectIdentifier{2, 23, 133, 2, 6}
 
 func newUniverse(owners, serials []string, bodies int) (*universe, error) {
+	return newUniverseAt(owners, serials, bodies, nil)
+}
+
+// newUniverseAt: addrs, when given, replaces the fixed edge-of-keyspace addresses (signed-transaction mode
+// needs addresses derived from real keys).
+func newUniverseAt(owners, serials []string, bodies int, addrs map[string]sdk.AccAddress) (*universe, error) {
 	u := &universe{Owners: owners, Serials: serials, Bodies: bodies, addr: map[string]sdk.AccAddress{},
 		certs: map[string]*certBody{}, byPEM: map[string]*certBody{}, bySer: map[string]string{}}
 	for _, o := range owners {
+		if a, ok := addrs[o]; ok {
+			u.addr[o] = a
+			continue
+		}
 		b, ok := ownerBytes[o]
 		if !ok {
 			return nil, fmt.Errorf("unknown owner id %q", o)
